@@ -343,28 +343,31 @@ func c04Run(c *fw.Ctx) error {
 			c.Violation(kind+"/"+cs.Form+"/flags="+cs.Flags, order, cs, fmt.Sprintf("%s form, flags %q, operands %s: %s", cs.Form, cs.Flags, strings.Join(cs.Docs, " ; "), detail))
 		}
 	}
-	for i, a := range maps {
-		for j, b := range maps {
-			idx++
-			if !c.Mine(idx) {
-				continue
-			}
-			if c.Expired() {
-				return nil
-			}
-			for _, f := range c04Flags {
-				emit(c04Case{"binary", f, []string{a.JSON(), b.JSON()}}, int64(a.Size()+b.Size())*1e6+int64(i*len(maps)+j))
-				if c.Thorough() || (a.Size() <= 2 || i >= nEnum) && (b.Size() <= 2 || j >= nEnum) {
-					emit(c04Case{"root", f, []string{a.JSON(), b.JSON()}}, int64(a.Size()+b.Size())*1e6+int64(i*len(maps)+j))
+	// (runs last: should the time budget end the enumeration, the hand-written documents and the reduce form are complete)
+	pairs := func() {
+		for i, a := range maps {
+			for j, b := range maps {
+				idx++
+				if !c.Mine(idx) {
+					continue
+				}
+				if c.Expired() {
+					return
+				}
+				for _, f := range c04Flags {
+					emit(c04Case{"binary", f, []string{a.JSON(), b.JSON()}}, int64(a.Size()+b.Size())*1e6+int64(i*len(maps)+j))
+					if c.Thorough() || (a.Size() <= 2 || i >= nEnum) && (b.Size() <= 2 || j >= nEnum) {
+						emit(c04Case{"root", f, []string{a.JSON(), b.JSON()}}, int64(a.Size()+b.Size())*1e6+int64(i*len(maps)+j))
+					}
+				}
+				if idx%4001 == 1 {
+					c.Sample(map[string]string{"form": "binary", "a": a.JSON(), "b": b.JSON(), "flags": "all 16"})
 				}
 			}
-			if idx%4001 == 1 {
-				c.Sample(map[string]string{"form": "binary", "a": a.JSON(), "b": b.JSON(), "flags": "all 16"})
-			}
-		}
-		if c.Mine(int64(i)) {
-			for _, f := range c04Flags {
-				emit(c04Case{"identity", f, []string{a.JSON()}}, int64(a.Size())*1e6+int64(i))
+			if c.Mine(int64(i)) {
+				for _, f := range c04Flags {
+					emit(c04Case{"identity", f, []string{a.JSON()}}, int64(a.Size())*1e6+int64(i))
+				}
 			}
 		}
 	}
@@ -410,6 +413,7 @@ func c04Run(c *fw.Ctx) error {
 			}
 		}
 	}
+	pairs()
 	return nil
 }
 
